@@ -288,6 +288,11 @@ func (v *Verifier) intrinsic(fr *Frame, st *State, full string, fn *types.Func, 
 		}
 	}
 	switch full {
+	case "(*sync.Mutex).Lock", "(*sync.Mutex).Unlock", "(*sync.Cond).Signal", "(*sync.Cond).Broadcast":
+		// sequential semantics: locking and signalling have no effect on the state under contract
+		// (mutual exclusion and wake-ups are not modelled; listed as an assumption through intrinsicsUsed)
+		use()
+		return TupleVal{}, true
 	case "(encoding/binary.bigEndian).PutUint64", "(encoding/binary.bigEndian).PutUint32", "(encoding/binary.bigEndian).PutUint16",
 		"(encoding/binary.littleEndian).PutUint64", "(encoding/binary.littleEndian).PutUint32", "(encoding/binary.littleEndian).PutUint16":
 		use()
@@ -664,6 +669,7 @@ func (v *Verifier) havocRange(st *State, sv SliceVal, lo, hi *Term) {
 }
 
 var wsRe = regexp.MustCompile(`\s+`)
+var anchorNthRe = regexp.MustCompile(`^(.*)#([0-9]+)$`)
 
 func normStmt(b []byte) string { return strings.TrimSpace(wsRe.ReplaceAllString(string(b), " ")) }
 
@@ -678,7 +684,13 @@ func (p *Prog) bindCuts(fi *FuncInfo) {
 	}
 	all := append(append([]*Cut{}, fi.Contract.Cuts...), fi.Contract.Assumes...)
 	for _, cut := range all {
-		want := normStmt([]byte(renameWords(cut.Anchor, fi.Rename)))
+		anchor, nth := cut.Anchor, 0
+		if m := anchorNthRe.FindStringSubmatch(anchor); m != nil {
+			// "text"#N: the N-th statement (in source order) whose text starts with text
+			anchor = m[1]
+			fmt.Sscanf(m[2], "%d", &nth)
+		}
+		want := normStmt([]byte(renameWords(anchor, fi.Rename)))
 		var hits []ast.Stmt
 		ast.Inspect(fi.Decl.Body, func(n ast.Node) bool {
 			st, ok := n.(ast.Stmt)
@@ -695,7 +707,9 @@ func (p *Prog) bindCuts(fi *FuncInfo) {
 			}
 			return true
 		})
-		if len(hits) == 1 {
+		if nth > 0 && nth <= len(hits) {
+			fi.CutAt[hits[nth-1]] = append(fi.CutAt[hits[nth-1]], cut)
+		} else if len(hits) == 1 && nth == 0 {
 			fi.CutAt[hits[0]] = append(fi.CutAt[hits[0]], cut)
 		} else {
 			fi.CutErr = append(fi.CutErr, fmt.Sprintf("cut %d: anchor %q matches %d statements", cut.Ord, cut.Anchor, len(hits)))
